@@ -50,10 +50,10 @@ PROPS = {
     "C01": {
         "runs": lambda tier: [run("locale", features=["likely"], only_panics=True), run("langid", only_panics=True),
                               run("subtags", only_panics=True), run("likely", features=["likely"], only_panics=True),
-                              run("locale", features=["likely"], only_panics=True, profile="debug", gen_ops=["big"])],
+                              run("locale", features=["likely"], only_panics=True, profile="debug", gen_ops=["big", "loc_hist"])],
         "rule": "all four suites (subtags, langid, locale, likely) under catch_unwind with a recording panic hook and a per-call watchdog; for C01 only panics, "
-                "hangs, aborts and the `big` (100k-subtag) cases count; the `big` cases are run a second time on an UNOPTIMISED build of the harness and library "
-                "(overflow checks on, no tail-call elimination: recursion depth and arithmetic overflow show up there). " + LOCALE_RULE,
+                "hangs, aborts and the `big` (100k-subtag) cases count; the `big` cases and all operation histories are run a second time on an UNOPTIMISED build of the harness and library "
+                "(debug assertions and overflow checks on, no tail-call elimination: recursion depth and arithmetic overflow show up there). " + LOCALE_RULE,
     },
     "C03": {"runs": lambda tier: [run("locale", ops=["locale", "extmap", "ext_type"], features=["likely"])], "rule": LOCALE_RULE},
     "C04": {"runs": lambda tier: [run("locale", ops=["loc_canonicalize", "loc_hist"], features=["likely"]), run("langid", ops=["li_canonicalize", "langid", "li_from_parts"])],
